@@ -1,7 +1,7 @@
 (* C07 — queued output is fully delivered before the proxy closes a client connection.
    Statements only; proofs are in Net/HandlerFacts.v.
 
-   The model (Net/Handler.v) is the code with proposed_fixes/C07-write-side-teardown.diff applied:
+   The model (Net/Handler.v) is the code after fix commit ae6ca23 (proposed_fixes/C07-write-side-teardown.diff):
    handle_events no longer returns True at once when the plugin's write side fails (upstream
    BrokenPipeError / OSError) — it stops reading and waits for the client buffer like the read side does.
    On the unrepaired tree that path lost every byte still queued for the client in threadless mode
